@@ -146,6 +146,30 @@ def run(ck, facts, tier):
     from props.c10 import table_insert
     table_insert(ck, facts, cg, "C12.TABLE-AFTER-BUILD")
 
+    R = "C12.RESET-COVERS-STATE"
+    ck.rule(R, "K2 (field coverage of the reset): what solve_root_goal uses to discard the frames an unwound solve left behind must reset "
+               "every piece of state the push/pop discipline maintains: each field of the recursive solver's Stack that push or pop may "
+               "change is also reset by Stack::clear (a derived counter or flag kept beside `entries` and forgotten in clear survives a "
+               "panic and falsifies later cycle checks); likewise SearchGraph::rollback_to covers every field insert changes")
+    from kit import mutated_self_fields
+    for adt, mutators, reset in (("chalk_recursive::fixed_point::stack::Stack", ("push", "pop"), "clear"),
+                                 ("chalk_recursive::fixed_point::search_graph::SearchGraph", ("insert",), "rollback_to")):
+        rb = need_body(ck, facts, R, adt + "::" + reset)
+        if not rb:
+            continue
+        short_adt = adt.split("::")[-1]
+        reset_fields = mutated_self_fields(facts.thir(adt + "::" + reset), short_adt)
+        for mname in mutators:
+            mb = need_body(ck, facts, R, adt + "::" + mname)
+            if not mb:
+                continue
+            for f_ in sorted(mutated_self_fields(facts.thir(adt + "::" + mname), short_adt)):
+                inst = "%s.%s:changed-by-%s:reset-by-%s" % (short_adt, f_, mname, reset)
+                if f_ in reset_fields:
+                    ck.ok(R, inst)
+                else:
+                    ck.violation(R, inst, rb.where(), "`%s` changes %s.%s but `%s` leaves it as the unwound solve left it" % (mname, short_adt, f_, reset))
+
     R = "C12.SLG-OWNERSHIP"
     ck.rule(R, "K7: for every function of chalk_engine::logic, at each call site whose callee may reach a database callback, the cleanup "
                "(unwind) path of that call drops no local of type Strand / Canonical<Strand>. Violations are keyed per function.")
